@@ -122,6 +122,34 @@ func c08Jobs(tier string) []Job {
 			jobs = append(jobs, Job{Scenario: &sc2, Bound: rbound, Race: true})
 		}
 	}
+	// configuration variants of the property's quantifier: the smallest counter table (an aging
+	// reset every 2 recorded accesses), Get buffers of 1 (every Get hands a batch to the policy
+	// goroutine), no callbacks, internal cost on
+	variants := []Cfg{
+		{NumCounters: 2, MaxCost: 2, BufferItems: 1, SetBuf: 2, Metrics: true},
+		{NumCounters: 3, MaxCost: 200, BufferItems: 1, SetBuf: 1, InternalCost: true, NoCallbacks: true},
+	}
+	vpairs := [][2]string{{"get", "get"}, {"get", "set"}, {"set", "set"}, {"get", "del"}, {"set", "wait"}, {"get", "metrics"}}
+	if tier == "thorough" {
+		vpairs = append(vpairs, [2]string{"get", "clear"}, [2]string{"set", "updmax"}, [2]string{"del", "del"}, [2]string{"setttl", "get"})
+	}
+	for vi, vc := range variants {
+		for _, pr := range vpairs {
+			bound, rbound := 2, 1
+			if heavy(pr[0]) || heavy(pr[1]) {
+				bound, rbound = 1, 0
+			}
+			setup := []Op{{K: "set", Key: 1, Cost: 1}, {K: "wait"}, {K: "get", Key: 1}, {K: "get", Key: 257}}
+			ta := []Op{c08Op(pr[0], 1), {K: "get", Key: 257}}
+			tb := []Op{c08Op(pr[1], 1), {K: "get", Key: 1}}
+			sc := &Scenario{Name: fmt.Sprintf("variant%d/%s|%s", vi, pr[0], pr[1]), Cfg: vc, Setup: setup, Threads: [][]Op{ta, tb}, Epilogue: cp(epi)}
+			jobs = append(jobs, Job{Scenario: sc, Bound: bound})
+			sc2 := *sc
+			sc2.Setup, sc2.Epilogue = cp(setup), cp(epi)
+			sc2.Threads = [][]Op{cp(ta), cp(tb)}
+			jobs = append(jobs, Job{Scenario: &sc2, Bound: rbound, Race: true})
+		}
+	}
 	// three threads (thorough)
 	if tier == "thorough" {
 		cfg := Cfg{NumCounters: 16, MaxCost: 2, BufferItems: 2, SetBuf: 1, Metrics: true}
